@@ -1,6 +1,8 @@
 use vbase::engine::{Ctx, Sub};
 
 pub mod c02;
+pub mod c03;
+pub mod c07;
 
 pub struct Prop {
     pub id: &'static str,
@@ -13,6 +15,8 @@ pub struct Prop {
 pub fn all() -> Vec<Prop> {
     vec![
         Prop { id: "C02", run: c02::run, subs: c02::subs, rule: c02::RULE, assumptions: c02::ASSUMPTIONS },
+        Prop { id: "C03", run: c03::run, subs: c03::subs, rule: c03::RULE, assumptions: c03::ASSUMPTIONS },
+        Prop { id: "C07", run: c07::run, subs: c07::subs, rule: c07::RULE, assumptions: c07::ASSUMPTIONS },
     ]
 }
 
